@@ -440,7 +440,7 @@ import (
 //@   ensures  maximal:  len(f.l.elems) >= 2 ==> f.l.elems[1].v.Seq > horizon
 //@   ensures  values:   forall m *Node[model.File] :: m.v.Seq == old(m.v.Seq) && m.v.Key == old(m.v.Key) && m.v.TxId == old(m.v.TxId) && m.v.ContentId == old(m.v.ContentId)
 //@   modifies Node[model.File].next, Node[model.File].prev, Node[model.File].owner, List[model.File].elems, List[model.File].base,
-//@            file.arr, mem[*Node[model.File]]
+//@            file.arr, mem[*Node[model.File]], model.File.*
 //@ loop lemmaCollect>(*file).IterateBeforeSeq$2#1
 //@   invariant jump:    jump$1 == 0
 //@   invariant inv:     f != nil && fileInv(f) && sortedF(f) && positiveF(f) && !f.withoutSearch
@@ -471,6 +471,8 @@ func lemmaCollect(f *file, horizon sequence.Seq) (removed []model.File) {
 //@   requires inv:   f != nil && fileInv(f) && sortedF(f) && positiveF(f) && !f.withoutSearch
 //@   requires after: p > horizon || (p == horizon && forall i int :: 0 <= i && i < len(f.l.elems) ==> f.l.elems[i].v.Seq != horizon)
 //@   ensures  same:  before == after
+//@   modifies Node[model.File].next, Node[model.File].prev, Node[model.File].owner, List[model.File].elems, List[model.File].base,
+//@            file.arr, mem[*Node[model.File]], model.File.*
 func lemmaCollectKeepsLookups(f *file, horizon, p sequence.Seq) (before, after model.File) {
 	before = f.LastBefore(p)
 	lemmaCollect(f, horizon)
